@@ -33,7 +33,7 @@ EXTRA_MODULES = {
     "C07": ["Proofs.C07", "Proofs.C07Lines", "Proofs.C07Source", "Proofs.C05", "Proofs.C07First", "Proofs.RenderTrace", "Proofs.TraceLemmas"],
     "C08": ["Proofs.C08", "Proofs.C08Source", "Proofs.ExprLexemes", "Proofs.ExprShowParse", "Proofs.ExprRoundTrip"],
     "C10": ["Proofs.C10", "Proofs.C10Source", "Proofs.SrcRelRender", "Proofs.SrcRelInclude", "Proofs.SrcShiftSource", "Proofs.C19E2E"],
-    "C11": ["Proofs.C11", "Proofs.C11Source", "Proofs.SrcLoop"],
+    "C11": ["Proofs.C11", "Proofs.C11Source", "Proofs.SrcLoop", "Proofs.Budget"],
     "C13": ["Proofs.RunLemmas", "Proofs.HyphenFace", "Proofs.C13Source", "Proofs.HyphenSource", "Proofs.HyphenSourceCompile", "Proofs.C19E2E"],
     "C12": ["Proofs.C12", "Proofs.C12Source"],
     "C14": ["Proofs.C14", "Proofs.C14Source", "Proofs.C14Errors", "Proofs.C14Depth"],
